@@ -36,7 +36,10 @@ inductive KeyObj where
   /-- `np.ndarray` with `ndim` axes -/
   | ndarray (ndim : Nat)
   | tuple
-  /-- any other `collections.abc.Sequence` (a list, a `range`, a `str`) with its element types -/
+  /-- any other `collections.abc.Sequence` (a list, a `range`, a `str`) with its element types.
+  `getIndexVariant` is exact for all of them; `setItemObj` reads it as a LIST (`__setitem__`
+  converts a list with `np.array(key)`; a `range` passes the dispatcher as LINEAR and fails
+  later, inside `_set_linear` - not modelled) -/
   | seq (elems : List KElem)
   /-- anything else: `float`, `None`, `Ellipsis`, a dict, a set, … -/
   | other
